@@ -629,7 +629,7 @@ def family(name, props):
     return deco
 
 
-CONTRACT_MODULES = ["bisection", "leaves", "train", "spline", "planar", "combinators", "shapes", "distributions", "masks", "losses", "wrappers", "wrappers13", "params11", "integrate04", "purity", "structured", "datafit"]
+CONTRACT_MODULES = ["bisection", "leaves", "train", "spline", "planar", "combinators", "shapes", "distributions", "masks", "losses", "wrappers", "wrappers13", "params11", "integrate04", "purity", "structured", "datafit", "triangular"]
 
 
 def load_contracts():
